@@ -9,8 +9,8 @@ Proof. exact json_report. Qed.
 Print Assumptions C20_json.
 
 (* that document lists the tasks of the run (one entry per selected task, in execution order), skipped ones without commands *)
-Theorem C20_json_is_the_run : forall pick defs s f req s' ob rs,
-  invoke pick defs s f req = (s', ob) -> ob_stdout ob = SDJson rs ->
+Theorem C20_json_is_the_run : forall pick defs vars s f req s' ob rs,
+  invoke pick defs vars s f req = (s', ob) -> ob_stdout ob = SDJson rs ->
   ob_exit ob = 0 /\ exists order, map tr_name rs = order /\
     (forall r, In r rs -> tr_skipped r = true -> tr_cmds r = []) /\ ~ has_failure rs.
 Proof. exact json_lists_the_run. Qed.
@@ -30,15 +30,23 @@ Theorem C20_show : forall l, StronglySorted le (sort_names l) /\ Permutation l (
 Proof. exact listing_sorted. Qed.
 Print Assumptions C20_show.
 
+(* --vars: every variable once with its evaluated value, sorted by name (and nothing is run) *)
+Theorem C20_vars : forall pick defs vars s f req,
+  f_vars f = true -> f_quiet f = false -> f_json f = false ->
+  invoke pick defs vars s f req = (s, {| ob_exit := 0; ob_error := None; ob_stdout := SDVars (sort_vars vars); ob_executed := [] |})
+  /\ Permutation vars (sort_vars vars) /\ StronglySorted (fun a b => fst a <= fst b) (sort_vars vars).
+Proof. exact vars_listing. Qed.
+Print Assumptions C20_vars.
+
 (* no task names: run the task named default if there is one, list the tasks otherwise *)
 Definition ok1 := {| c_cmd := [101%N]; c_out := [109%N; 10%N]; c_err := []; c_status := 0 |}.
 Definition defs_d := [ {| td_name := 3; td_deps := []; td_lits := []; td_globs := []; td_cmds := [ok1] |};
                        {| td_name := 1; td_deps := []; td_lits := []; td_globs := []; td_cmds := [] |} ].
-Definition plain := {| f_quiet := false; f_json := false; f_force := false; f_show := false |}.
+Definition plain := {| f_quiet := false; f_json := false; f_force := false; f_show := false; f_vars := false; f_clean := false |}.
 Example C20_default :
-  ob_stdout (snd (invoke (fun _ l => l) defs_d (init_i (fun _ => None)) plain [])) = SDText [MCompleted 3]
-  /\ ob_stdout (snd (invoke (fun _ l => l) (tl defs_d) (init_i (fun _ => None)) plain [])) = SDListing [1]
-  /\ ob_stdout (snd (invoke (fun _ l => l) defs_d (init_i (fun _ => None)) {| f_quiet := false; f_json := true; f_force := false; f_show := false |} [3]))
+  ob_stdout (snd (invoke (fun _ l => l) defs_d [] (init_i (fun _ => None)) plain [])) = SDText [MCompleted 3]
+  /\ ob_stdout (snd (invoke (fun _ l => l) (tl defs_d) [] (init_i (fun _ => None)) plain [])) = SDListing [1]
+  /\ ob_stdout (snd (invoke (fun _ l => l) defs_d [] (init_i (fun _ => None)) {| f_quiet := false; f_json := true; f_force := false; f_show := false; f_vars := false; f_clean := false |} [3]))
      = SDJson [{| tr_name := 3; tr_skipped := false; tr_cmds := [ok1] |}].
 Proof. repeat split; vm_compute; reflexivity. Qed.
 Print Assumptions C20_default.
